@@ -753,10 +753,24 @@ func dispatcherCasesIn(w *World, fi *FuncInfo) map[int64]string {
 		if !ok {
 			return true
 		}
+		// a clause that ends in `fallthrough` allocates what the next clause allocates
+		fellTo := map[*ast.CaseClause]*ast.CaseClause{}
+		for i, cc := range sw.Body.List {
+			c := cc.(*ast.CaseClause)
+			if n := len(c.Body); n > 0 && i+1 < len(sw.Body.List) {
+				if b, ok := c.Body[n-1].(*ast.BranchStmt); ok && b.Tok == token.FALLTHROUGH {
+					fellTo[c] = sw.Body.List[i+1].(*ast.CaseClause)
+				}
+			}
+		}
 		for _, cc := range sw.Body.List {
 			c := cc.(*ast.CaseClause)
 			kind := ""
-			for _, st := range c.Body {
+			body := c.Body
+			for t, hops := fellTo[c], 0; t != nil && hops < 64; t, hops = fellTo[t], hops+1 {
+				body = append(append([]ast.Stmt{}, body...), t.Body...)
+			}
+			for _, st := range body {
 				ast.Inspect(st, func(m ast.Node) bool {
 					if _, isSw := m.(*ast.SwitchStmt); isSw {
 						return false // nested dispatch (error / experimenter error): handled by its own switch
@@ -787,6 +801,20 @@ func dispatcherCasesIn(w *World, fi *FuncInfo) map[int64]string {
 						if kk := w.KindOfType(t); kk != nil {
 							if fn := w.calleeOf(info, call); fn != nil && strings.HasPrefix(fn.Name(), "New") {
 								kind = kk.Name
+							}
+						}
+					}
+					// the clause's work moved into a package-level helper that allocates and decodes
+					if kind == "" {
+						if fn := w.calleeOf(info, call); fn != nil {
+							if hf := w.FuncOf(fn); hf != nil && hf != fi && hf.Recv == nil && hf.Decl.Body != nil {
+								if sig := fn.Type().(*types.Signature); sig.Results().Len() >= 1 {
+									rt := sig.Results().At(0).Type()
+									_, isIface := rt.Underlying().(*types.Interface)
+									if isIface || w.KindOfType(rt) != nil {
+										kind = allocatedKind(w, info, call.Fun, 0)
+									}
+								}
 							}
 						}
 					}
